@@ -243,6 +243,13 @@ class Translator:
             return f"(nrpow N {self.inj(base, bty, n)} {self.inj(e, ety, n)})", "A"
         a, aty = self.ex(n.left, env, cfg)
         b, bty = self.ex(n.right, env, cfg)
+        LA = ("list", "A")
+        if aty == LA and bty == LA and isinstance(n.op, (ast.Div, ast.Mult, ast.Add, ast.Sub)):
+            f = {ast.Div: "ndiv", ast.Mult: "nmul", ast.Add: "nadd", ast.Sub: "nsub"}[type(n.op)]
+            return f"(map2 ({f} N) {a} {b})", LA
+        if aty == LA and bty in ("A", "Z") and isinstance(n.op, (ast.Div, ast.Mult)):
+            f = {ast.Div: "ndiv", ast.Mult: "nmul"}[type(n.op)]
+            return f"(map (fun x__ => {f} N x__ {self.inj(b, bty, n)}) {a})", LA
         if isinstance(n.op, ast.Div):
             return f"(ndiv N {self.inj(a, aty, n)} {self.inj(b, bty, n)})", "A"
         ops = {ast.Add: ("nadd", "Z.add", "Nat.add"), ast.Sub: ("nsub", "Z.sub", None),
@@ -285,6 +292,11 @@ class Translator:
                 fields = env[base][1]
                 if n.attr in fields:
                     return fields[n.attr]
+        if n.attr in SPECIES_FIELDS and not isinstance(n.value, ast.Name):
+            t, ty = self.ex(n.value, env, cfg)
+            if ty == "species":
+                f = "sname" if n.attr == "name" else n.attr
+                return f"({f} {t})", SPECIES_FIELDS[n.attr]
         self.fail(n, f"attribute {ast.unparse(n)}")
 
     def subscript(self, n, env, cfg):
@@ -320,6 +332,8 @@ class Translator:
             t, ty = self.ex(n.slice, env, cfg)
             if ty == "nat" and bty[1] == "A":
                 return f"(nth {t} {base} (nofZ N 0%Z))", "A"
+            if ty == "nat" and bty[1] == "species":
+                return f"(nth {t} {base} (dummy_species (nofZ N 0%Z)))", "species"
         self.fail(n, f"subscript {ast.unparse(n)}")
 
     NP1 = {"exp": "nexp", "log": "nln", "sqrt": "nsqrt", "tanh": "ntanh", "abs": "nabs"}
@@ -335,6 +349,16 @@ class Translator:
                 if f.attr == "abs" and ty == "Z":
                     return f"(Z.abs {t})", "Z"
                 return f"({self.NP1[f.attr]} N {self.inj(t, ty, n)})", "A"
+            if f.attr == "array" and len(n.args) == 1:
+                t, ty = self.ex(n.args[0], env, cfg)
+                if ty != ("list", "A"):
+                    self.fail(n, f"np.array of {ty}")
+                return t, ty
+            if f.attr in ("argmin", "argmax") and len(n.args) == 1:
+                t, ty = self.ex(n.args[0], env, cfg)
+                if ty != ("list", "A"):
+                    self.fail(n, f"np.{f.attr} of {ty}")
+                return f"({f.attr} N {t})", "nat"
             if f.attr in ("sum", "prod") and len(n.args) == 1:
                 t, ty = self.ex(n.args[0], env, cfg)
                 if ty != ("list", "A"):
@@ -361,6 +385,13 @@ class Translator:
                 if not (isinstance(aty, tuple) and aty[0] == "list" and isinstance(bty, tuple) and bty[0] == "list"):
                     self.fail(n, "zip of non-lists")
                 return f"(combine {a} {b})", ("list", ("tuple", [aty[1], bty[1]]))
+            if f.id == "zip" and len(n.args) == 3:
+                parts = [self.ex(x, env, cfg) for x in n.args]
+                for t, ty in parts:
+                    if not (isinstance(ty, tuple) and ty[0] == "list"):
+                        self.fail(n, "zip of non-lists")
+                (a, aty), (b, bty), (c, cty) = parts
+                return f"(combine {a} (combine {b} {c}))", ("list", ("tuple", [aty[1], ("tuple", [bty[1], cty[1]])]))
             if f.id == "delta" and len(n.args) == 2:
                 a, aty = self.ex(n.args[0], env, cfg)
                 b, bty = self.ex(n.args[1], env, cfg)
@@ -439,11 +470,16 @@ class Translator:
         """pattern text and the environment extension for a loop/comprehension target."""
         if isinstance(target, ast.Name):
             return cname(target.id), {target.id: ety}
+        if isinstance(target, ast.Tuple) and len(target.elts) == 3 and isinstance(ety, tuple) and ety[0] == "tuple" \
+                and len(ety[1]) == 2 and isinstance(ety[1][1], tuple) and ety[1][1][0] == "tuple" and len(ety[1][1][1]) == 2:
+            # a flat 3-tuple target over zip(a, b, c) rendered as nested pairs
+            nested = ast.Tuple(elts=[target.elts[0], ast.Tuple(elts=target.elts[1:], ctx=ast.Store())], ctx=ast.Store())
+            return self.bind_target(nested, ety, env, node)
         if isinstance(target, ast.Tuple) and isinstance(ety, tuple) and ety[0] == "tuple" and len(ety[1]) == len(target.elts):
             pats, ext = [], {}
             for t, ty in zip(target.elts, ety[1]):
                 p, e = self.bind_target(t, ty, env, node)
-                pats.append(p)
+                pats.append(p.lstrip("'"))
                 ext.update(e)
             return "'(" + ", ".join(pats) + ")", ext
         self.fail(node, f"loop target {ast.unparse(target)} for element type {ety}")
@@ -606,6 +642,12 @@ class Translator:
         if isinstance(st, ast.For):
             return self.for_loop(st, rest, env, cfg, tail)
         if isinstance(st, ast.Expr) and isinstance(st.value, ast.Call):
+            f = st.value.func
+            if isinstance(f, ast.Attribute) and isinstance(f.value, ast.Name) and f.value.id in env \
+                    and isinstance(env[f.value.id], tuple) and env[f.value.id][0] == "obj" and not st.value.args \
+                    and (f.attr + "()") in env[f.value.id][1]:
+                # a call made for its effect on the caches only (C03 models the effect); no value is used
+                return self.block(rest, env, cfg, tail)
             self.fail(st, "expression statement with side effects")
         self.fail(st, type(st).__name__)
 
@@ -713,13 +755,15 @@ class Translator:
         raise Unsupported(self.short, self.tree, f"no Coq type for {ty}")
 
     # ------------------------------------------------------------------ functions
-    def function(self, qual, cfg: FnCfg):
+    def function(self, qual, cfg: FnCfg, self_obj=None):
         fn = self.find(qual)
         pyargs = [a.arg for a in fn.args.args if a.arg != "self"]
         want = [p for p, _ in cfg.params]
         if pyargs != want:
             self.fail(fn, f"signature of {qual} is {pyargs}, translator expects {want}")
         env = {p: t for p, t in cfg.params}
+        if self_obj is not None:
+            env["self"] = self_obj
         self.loop_counter = 0
         body, bty = self.block(fn.body, env, cfg, None)
         params = []
